@@ -108,8 +108,13 @@ func siteException(w *core.World, f *ssa.Function, callee string) (string, bool)
 	}
 	if core.IsInlined(f) {
 		reason := ""
-		for _, k := range core.HostKeys(f) {
-			r2, ok := collabErrorExceptions[k+" -> "+callee]
+		for _, h := range core.Roots(f) {
+			r2, ok := collabErrorExceptions[core.FuncKey(h)+" -> "+callee]
+			if !ok {
+				if role, isRole := roleFnCache[h]; isRole {
+					r2, ok = collabErrorExceptions[role+" -> "+callee]
+				}
+			}
 			if !ok {
 				return "", false
 			}
